@@ -276,18 +276,22 @@ pub async fn h3_session(peer: SocketAddr, sni: &str, requests: &[H3Request], lim
         }
     };
     let mut ids: Vec<Option<u64>> = vec![];
+    // how much of each request body has been written (flow control may take several rounds)
+    let mut body_off: Vec<usize> = vec![];
+    let mut body_done: Vec<bool> = vec![];
     for r in requests {
         let hdrs: Vec<h3::Header> = r.headers.iter().map(|(n, v)| h3::Header::new(n, v)).collect();
         match h3_conn.send_request(&mut conn, &hdrs, r.fin) {
             Ok(id) => {
-                if !r.body.is_empty() || r.fin_after_body {
-                    let _ = h3_conn.send_body(&mut conn, id, &r.body, r.fin_after_body);
-                }
                 ids.push(Some(id));
+                body_off.push(0);
+                body_done.push(r.body.is_empty() && !r.fin_after_body);
             }
             Err(e) => {
                 out.error.get_or_insert(format!("send_request: {}", e));
                 ids.push(None);
+                body_off.push(0);
+                body_done.push(true);
             }
         }
         flush(&socket, &mut conn).await;
@@ -299,6 +303,34 @@ pub async fn h3_session(peer: SocketAddr, sni: &str, requests: &[H3Request], lim
             out.closed = true;
             break;
         }
+        // request bodies, as far as flow control lets them go
+        for (k, r) in requests.iter().enumerate() {
+            let Some(id) = ids[k] else { continue };
+            if body_done[k] {
+                continue;
+            }
+            loop {
+                let rest = &r.body[body_off[k]..];
+                match h3_conn.send_body(&mut conn, id, rest, r.fin_after_body) {
+                    Ok(n) => {
+                        body_off[k] += n;
+                        if body_off[k] >= r.body.len() {
+                            body_done[k] = true;
+                            break;
+                        }
+                        if n == 0 {
+                            break;
+                        }
+                    }
+                    Err(h3::Error::Done) => break,
+                    Err(_) => {
+                        body_done[k] = true; // the stream is gone (stopped / reset by the peer)
+                        break;
+                    }
+                }
+            }
+        }
+        flush(&socket, &mut conn).await;
         read_out(&socket, &mut conn);
         loop {
             match h3_conn.poll(&mut conn) {
